@@ -139,14 +139,18 @@ structure Space where
   placed : List Agent
 deriving Repr
 
-/-- a fresh space; `extra` lists the network nodes / Voronoi centroids.  Duplicated nodes are refused. -/
+/-- the cells of a fresh space; `extra` lists the network nodes / Voronoi centroids -/
+def initCells (fam : Family) (w h : Nat) (extra : List Loc) : List Loc :=
+  match fam with
+  | .netgrid | .net | .vor => extra
+  | .cs | .xcs => []
+  | _ => gridCells w h
+
+/-- a fresh space.  Duplicated nodes / centroids are refused. -/
 def Space.init? (fam : Family) (w h : Nat) (extra : List Loc) : Option Space :=
-  let cells :=
-    match fam with
-    | .netgrid | .net | .vor => extra
-    | .cs | .xcs => []
-    | _ => gridCells w h
-  if cells.Nodup then some { fam, w, h, cells, placed := [] } else none
+  if (initCells fam w h extra).Nodup then
+    some { fam, w, h, cells := initCells fam w h extra, placed := [] }
+  else none
 
 def mkAgent (fam : Family) (id : Nat) (l : Loc) : Agent :=
   if fam.newStyle then { id, pos := none, cell := some l } else { id, pos := some l, cell := none }
@@ -254,6 +258,11 @@ structure Group where
   members : List Entry
 deriving DecidableEq, Repr
 
+/-- the distinct values of an array (`set(marker)`, `np.unique(zorder)`; their order is not observable) -/
+def distinct : List Val → List Val
+  | [] => []
+  | x :: xs => if (distinct xs).contains x then distinct xs else x :: distinct xs
+
 /-- an optional array is usable if nobody or everybody supplied the key; otherwise `v[logical]`
     indexes an array of the wrong length (open finding V7) -/
 def optionalOk (n k : Nat) : Bool := k == 0 || k == n
@@ -265,8 +274,8 @@ def scatter (es : List Entry) : Except Err (List Group) :=
   else if !(optionalOk es.length (edgecolorss es).length && optionalOk es.length (linewidthss es).length
             && optionalOk es.length (alphas es).length) then .error .index
   else
-    let marks := (es.map (·.marker)).eraseDups
-    let zs := (es.map (·.zorder)).eraseDups
+    let marks := distinct (es.map (·.marker))
+    let zs := distinct (es.map (·.zorder))
     .ok ((marks.flatMap fun m => zs.map fun z =>
       { marker := m, zorder := z, members := es.filter fun e => e.marker == m && e.zorder == z : Group }).filter
         fun g => !g.members.isEmpty)
